@@ -8,6 +8,7 @@ from ..runner import Part, Violation
 from . import c04, c07
 
 ID = "C18"
+ATHERIS = ['header-add', 'typed']  # parts also driven by libFuzzer in the thorough tier (vf/runner.py: all_parts)
 RULE = ("part 'levels': generated valid documents loaded at vlevel 0,1,2,3: same observation (records compared "
         "through the canonicaliser between level 0 and the others, literally among 1,2,3), all accepted, version "
         "given or inferred; the same edit (rename of a referenced line, removal) gives the same document and graph "
